@@ -200,6 +200,10 @@ func listLenOf(m *model.Packet, name string) int {
 // checkC12 replays a call sequence against a fresh packet and compares the
 // accessors with the model after every step.
 func checkC12(c caseC12) (sig, msg string) {
+	guard.SetCurrent(func() []byte {
+		return mustJSON(vf.Failure{Property: "C12", Kind: "hang", Case: mustJSON(c), Signature: "hang", Message: "a library call made for this case did not return"})
+	})
+	defer guard.SetCurrent(nil)
 	ss := api.Setters(c.Type)
 	byName := map[string]api.Setter{}
 	for _, s := range ss {
